@@ -330,6 +330,13 @@ func (t *tracer) origins(v ssa.Value) []ssa.Value {
 				} else {
 					addRoot(v)
 				}
+			case *ssa.Lookup:
+				// v, ok := m[k]
+				if x.Index == 0 {
+					walk(tup, depth)
+				} else {
+					addRoot(v)
+				}
 			case *ssa.Select, *ssa.UnOp:
 				if ch, ok := chanOfRecv(v); ok && t.throughChans {
 					t.walkChan(ch, depth, walk, addRoot, v)
